@@ -63,6 +63,13 @@ type Session struct {
 	FinishOnError bool
 	// Flush makes the persister flush its state and memory after every successful Save (Persister.WithFlush).
 	Flush bool
+	// ViaLoop (persisted mode): each request is served by one call of engine.Loop with the input as its
+	// initial input and nothing to read (a gateway that calls Loop once per request). Loop does not report
+	// continue/stop, and one error stands for Exec and Flush: Resp.Cont is meaningless, Resp.ExecErr holds it.
+	ViaLoop bool
+	// ReuseBuf: every input is handed to Exec as a slice of ONE process-wide read buffer that is overwritten
+	// by the next request (a front end that reads requests into a buffer it reuses)
+	ReuseBuf bool
 	// RetryFinish: a Finish that fails is called once more (a client that retries the save)
 	RetryFinish bool
 	// SharedPe, when set (persisted mode), is used for every request instead of a new persister: one
@@ -92,7 +99,7 @@ func NewSession(a *App, cfg engine.Config, mode Mode) *Session {
 	s := &Session{App: a, Cfg: cfg, Mode: mode, Env: env, Res: &Res{App: a, Env: env}}
 	if a.First {
 		s.First = func(ctx context.Context, sym string, input []byte) (resource.Result, error) {
-			env.Log = append(env.Log, Call{Kind: "call", Sym: "_first", Input: string(input)})
+			env.Log = append(env.Log, Call{Kind: "call", Sym: "_first", Input: string(input), Lang: ctxLang(ctx)})
 			return resource.Result{}, nil
 		}
 	}
@@ -162,8 +169,21 @@ func (s *Session) newEngine() (*engine.DefaultEngine, *persist.Persister) {
 }
 
 // Request serves one client request: Exec, Flush, Finish in the configured client style.
+var readBuf = make([]byte, 1024)
+
+func (s *Session) viaReadBuf(input []byte) []byte {
+	if !s.ReuseBuf || len(input) > len(readBuf) {
+		return input
+	}
+	for i := range readBuf {
+		readBuf[i] = 0
+	}
+	return readBuf[:copy(readBuf, input)]
+}
+
 func (s *Session) Request(input []byte) (r Resp) {
 	r.Input = string(input)
+	input = s.viaReadBuf(input)
 	mark := s.Env.Mark()
 	s.Steps = 0
 	vm.VerifPoint = func() {
@@ -217,6 +237,17 @@ func (s *Session) Request(input []byte) (r Resp) {
 			}
 		}()
 	}
+	if s.ViaLoop && s.Mode == Persisted {
+		var w bytes.Buffer
+		err := engine.Loop(ctx, en, strings.NewReader(""), &w, input)
+		r.ExecErr = errStr(err)
+		r.Out = w.String()
+		if strings.HasSuffix(r.Out, "\n") {
+			r.Out = r.Out[:len(r.Out)-1]
+		}
+		r.FinishErr = ""
+		return
+	}
 	cont, err := en.Exec(ctx, input)
 	r.Cont = cont
 	r.ExecErr = errStr(err)
@@ -255,6 +286,7 @@ func (s *Session) Request(input []byte) (r Resp) {
 // calls returned ("-" = not called).
 func (s *Session) Attempt(input []byte, style int) (r Resp) {
 	r.Input = string(input)
+	input = s.viaReadBuf(input)
 	mark := s.Env.Mark()
 	s.Steps = 0
 	vm.VerifPoint = func() { s.Steps++ }
